@@ -142,7 +142,7 @@ func genOpts(g *Gen, positions bool) {
 				if !g.Thorough() && bi >= 2 && p%64 != 63 {
 					continue
 				}
-				in := []rune(strings.Repeat(fill, 40))[:p]
+				in := []rune(strings.Repeat(fill, 60))[:p] // (the shortest filler has 7 characters: 60 of them reach past every offset)
 				in = append(in, []rune(br+"x1 "+br+br+"y")...)
 				g.Run("a line break at every offset around the multiples of 64:"+kind, []Ev{{"op": "tok", "kind": kind, "opts": toAnyList(optList([]int{0, 127, 2 | 16}[p%3])), "input": cpsR(in)}})
 			}
